@@ -126,7 +126,7 @@ def walk(groups, own, soll_is_required, pending_errors=None):
             seg(s, status)
 
     for g in groups:
-        grp(g, None)
+        (seg if g["kind"] == "segment" else grp)(g, None)  # a segment may be validated as root (validate_segment_level)
     if errors:
         raise ExpectNotImplemented(errors)
     return out
